@@ -74,24 +74,37 @@ def collect(pid, wt, name):
     return 0 if ok else 1
 
 
-def run(name, checks, tier='quick'):
+def run(name, checks, tier='quick', inplace=False):
+    """apply the seeded change and run the checks against it. Default: in a scratch worktree of /repo's HEAD that the
+    checks are pointed at through VERIF_REPO (so that /repo itself stays usable meanwhile); --inplace applies it to
+    /repo itself (git -C /repo apply …) and undoes it afterwards."""
     dest = os.path.join(VERIF, 'seeded', name)
     meta = json.load(open(os.path.join(dest, 'meta.json')))
     if not checks:
         checks = [meta['property']]
-    rc, out = sh('git -C /repo status --porcelain -- gemato utils')
-    assert not out.strip(), '/repo has local changes: ' + out
-    rc, out = sh(f'git -C /repo apply {dest}/patch.diff')
+    if inplace:
+        repo = '/repo'
+        rc, out = sh('git -C /repo status --porcelain -- gemato utils')
+        assert not out.strip(), '/repo has local changes: ' + out
+    else:
+        repo = f'/tmp/wts-{name}'
+        sh(f'git -C /repo worktree remove --force {repo}')
+        rc, out = sh(f'git -C /repo worktree add -q {repo} HEAD')
+        assert rc == 0, out
+    rc, out = sh(f'git -C {repo} apply {dest}/patch.diff')
     assert rc == 0, out
     results = {}
     try:
         for c in checks:
-            rc, out = sh(f'VERIF_EVIDENCE_DIR=/tmp/seed-evidence timeout 900 ./check {c} --tier {tier}', cwd=VERIF, timeout=1000)
+            rc, out = sh(f'VERIF_REPO={repo} VERIF_EVIDENCE_DIR=/tmp/seed-evidence timeout 1800 ./check {c} --tier {tier}', cwd=VERIF, timeout=2000)
             v = [l for l in out.split('\n') if l.startswith('VIOLATION') or l.startswith('HARNESS') or l.startswith('[')]
             results[c] = {'exit': rc, 'lines': v[-4:]}
-            print(c, 'exit', rc, *v[-3:], sep='\n   ')
+            print(name, c, 'exit', rc, *v[-3:], sep='\n   ')
     finally:
-        sh('git -C /repo checkout -- gemato utils')
+        if inplace:
+            sh('git -C /repo checkout -- gemato utils')
+        else:
+            sh(f'git -C /repo worktree remove --force {repo}')
     meta.setdefault('detection', {}).update(results)
     json.dump(meta, open(os.path.join(dest, 'meta.json'), 'w'), indent=1)
     return 0
@@ -105,4 +118,7 @@ if __name__ == '__main__':
         args = sys.argv[3:]
         if '--thorough' in args:
             args.remove('--thorough'); tier = 'thorough'
-        sys.exit(run(sys.argv[2], args, tier))
+        inplace = '--inplace' in args
+        if inplace:
+            args.remove('--inplace')
+        sys.exit(run(sys.argv[2], args, tier, inplace))
